@@ -223,7 +223,9 @@ func iff(c bool, a, b string) string {
 	return b
 }
 
-var unmarshalSettings = []string{"unmarshal", "parse", "dec:0:0", "dec:1:0", "dec:0:1", "dec:1:1"}
+// "decpad:<k>": through a Decoder, with white space in front so that byte k of the document is the first byte of the
+// second 32 KiB buffer fill (state computed on one fill must not leak into, or be forgotten by, the next)
+var unmarshalSettings = []string{"unmarshal", "parse", "dec:0:0", "dec:1:0", "dec:0:1", "dec:1:1", "decpad"}
 
 func decodeWith(setting string, doc []byte, t1, t2 any) (error, error) {
 	switch setting {
@@ -237,6 +239,15 @@ func decodeWith(setting string, doc []byte, t1, t2 any) (error, error) {
 		return e1, stdjson.Unmarshal(doc, t2)
 	}
 	p := strings.Split(setting, ":")
+	if p[0] == "decpad" {
+		k := 0
+		if len(doc) > 0 {
+			k = int(uint(len(doc))*2654435761%uint(len(doc)+1)) % (len(doc) + 1)
+		}
+		pad := 32768 - k
+		doc = append(bytes.Repeat([]byte{' '}, pad), doc...)
+		p = []string{"dec", "0", "0"}
+	}
 	d1 := json.NewDecoder(bytes.NewReader(doc))
 	d2 := stdjson.NewDecoder(bytes.NewReader(doc))
 	if p[1] == "1" {
